@@ -20,7 +20,7 @@ const BYTE_ALPHA: [&[u8]; 11] = [b"a", b"b", b"\0", b"x", b"\n", b"'", b"\"", b"
 
 fn bounds(t: Tier) -> (usize, usize, usize, usize, usize) {
     // (single-read len, all-chunkings len, buffer-edge suffix len, byte-mode len, byte-mode chunk len)
-    t.pick((6, 5, 2, 4, 3), (7, 6, 3, 5, 4))
+    t.pick((6, 5, 2, 4, 3), (8, 7, 3, 5, 4))
 }
 
 fn spec(t: Tier) -> Spec {
